@@ -166,6 +166,25 @@ def check(ctx):
                        "(resume: %s) nor fails it on a clean start (purge: %s): the Deferred stays pending for ever and the entry keeps "
                        "later calls out of the window" % (reg, resumed, purged),
                    facts={"loss_keeps": keeps, "resume_rearms": resumed, "purge_drains": purged})
+    # requests "of the same kind": the two windows of an address are containers of their own (built in buildProtocol from the
+    # registry they are stored in, or fresh)
+    from ..catalogue import profile_map
+    for p in profile_map(a):
+        if p.exit_kind() != "return":
+            continue
+        for e in p.events:
+            if e.kind != "REGTOP" or e.a["reg"] not in ("windowSubscribe", "windowUnsubscribe"):
+                continue
+            v = e.a["val"]
+            own = False
+            if isinstance(v, tuple) and v[0] == "call" and isinstance(v[1], tuple) and v[1][0] == "attr" and v[1][2] in ("get", "setdefault"):
+                own = v[1][1] == ("regtop", e.a["reg"])
+            elif isinstance(v, tuple) and v[0] in ("fresh", "dictlit") or (isinstance(v, tuple) and v[0] == "call" and v[1] == ("builtin", "dict")):
+                own = True
+            ctx.ob("S-DISTINCT", "%s of an address is its own container" % e.a["reg"], own, where=where(e), function=e.func,
+                   construct="buildProtocol/%s/own-container" % e.a["reg"],
+                   msg="the container stored as %s[addr] is %s: subscribe and unsubscribe requests would share one window (counted together, "
+                       "acknowledged by each other's packets, re-sent twice on resume)" % (e.a["reg"], show(v)), nontrivial=False)
     ctx.count("accept_paths", n_accept)
     ctx.floor("subscribe/unsubscribe accepting paths", n_accept, 8)
 
